@@ -415,7 +415,7 @@ def check(prop, tier, seed, cfg, replay=None):
     violations = []  # (key, desc, replay payload) concrete failing inputs
     notes = []
 
-    gated = closure_files(prop_files(prop) + ["Run/Run%s.v" % prop])
+    gated = closure_files(prop_files(prop) + [os.path.relpath(f, COQ) for f in sorted(glob.glob(os.path.join(COQ, "Run", "Run%s*.v" % prop)))])
     gate = source_gate(gated)
     if gate:
         broken.append(("source-gate", "forbidden vernacular in the files this property depends on: " + ", ".join(gate[:5])))
@@ -432,7 +432,8 @@ def check(prop, tier, seed, cfg, replay=None):
         m = re.search(r'File "([^"]+)", line (\d+).*?\n(Error.*?)(?:\n\n|\Z)', out, flags=re.S)
         detail = ("%s line %s: %s" % (m.group(1), m.group(2), m.group(3)[:600])) if m else out[-1500:]
         broken.append(("proof", "Props/%s.vo does not build: %s" % (prop, detail)))
-    runok, out2 = build_target("Run/Run%s.vo" % prop, lockname=prop)
+    run_files = [os.path.relpath(f, COQ) for f in sorted(glob.glob(os.path.join(COQ, "Run", "Run%s*.v" % prop)))]
+    runok, out2 = build_target(" ".join(f + "o" for f in run_files), lockname=prop)
     if not runok:
         broken.append(("model", "Run/Run%s.vo does not build: %s" % (prop, out2[-800:])))
 
